@@ -1,5 +1,6 @@
 mod alloc;
 mod env;
+mod fork;
 mod gen;
 mod json;
 mod l2a;
@@ -165,12 +166,15 @@ fn cmd_replay(args: &Args) -> i32 {
                     return 2;
                 }
             };
-            let r = runner::run_ops(prop, &ops, &mut env);
-            if let Some(h) = r.harness {
-                println!("HARNESS-ERROR {}", h);
-                return 2;
-            }
-            match r.violation {
+            let scratch = env.dir.join("replay.out");
+            let r = match runner::run_ops_isolated(prop, &ops, &mut env, &scratch) {
+                Ok((v, _)) => v,
+                Err(h) => {
+                    println!("HARNESS-ERROR {}", h);
+                    return 2;
+                }
+            };
+            match r {
                 Some(v) => {
                     println!("REPRODUCED property={} signature={} at-op={} detail={}", f.property, v.signature(), v.op_index, v.detail);
                     if v.signature() == f.signature {
@@ -241,6 +245,7 @@ fn w1_cfg(args: &Args, prop: Prop) -> BatchCfg {
         sys_max_n: 3,
         sys_variants: args.num("sys-variants", if thorough { 2 } else { 1 }) as usize,
         dump_digests: args.opt.get("dump-digests").map(PathBuf::from),
+        runs_per_fork: args.num("runs-per-fork", match prop { Prop::C20 => 64, Prop::C19 => 16, Prop::C02 => 4, Prop::C03 => 1 }),
     }
 }
 
@@ -302,8 +307,15 @@ fn cmd_w1(args: &Args) -> i32 {
             continue;
         }
         let min_ops = runner::minimize(prop, &f.ops, sig, &mut env, 30.0);
-        let rr = runner::run_ops(prop, &min_ops, &mut env);
-        let detail = rr.violation.as_ref().map(|v| v.detail.clone()).unwrap_or_else(|| f.violation.detail.clone());
+        let scratch = env.dir.join("final.out");
+        let (detail, nexec) = match runner::run_ops_isolated(prop, &min_ops, &mut env, &scratch) {
+            Ok((Some(v), n)) => (v.detail, n),
+            _ => (f.violation.detail.clone(), min_ops.len()),
+        };
+        struct RR {
+            ops: Vec<ops::TOp>,
+        }
+        let rr = RR { ops: min_ops[..nexec.min(min_ops.len())].to_vec() };
         let rf = ReplayFile {
             property: prop.id().to_string(),
             world: "W1".into(),
@@ -342,7 +354,7 @@ fn cmd_w1(args: &Args) -> i32 {
     // dead-probe check (thorough only): a workload that never reaches its rare conditions must not pass silently
     let required: &[&str] = match prop {
         Prop::C02 => &["finish_after_partial", "finish_after_exhaustion", "step_after_exhaustion", "zero_frame_generator", "generator_moved_across_tasks", "generator_dropped_midstream", "mixed_buffer_sizes", "engine_dropped_while_generators_live"],
-        Prop::C03 => &["same_key_on_two_tasks", "same_key_on_two_engine_slots", "clone", "failed_call:err", "generator_waveform_registered", "engine_dropped_while_generators_live"],
+        Prop::C03 => &["same_key_on_two_tasks", "same_key_on_two_engine_slots", "clone", "failed_call:err", "generator_waveform_registered", "engine_dropped_while_generators_live", "fresh_process_reference_checked"],
         Prop::C19 => &["setw:valid", "setw:wrong_length", "setw:wrong_length_good_sum", "setw:bad_sum", "setw:nan", "rejected_update", "synth_vs_twin", "vsnew:empty", "vsnew:metadata", "vsnew:ok", "vsnew_variant:0", "vsnew_variant:1", "vsnew_variant:2", "vsnew_mutated_first_voice", "vsnew_mutated_third_or_later_voice"],
         Prop::C20 => &["clamp_applied:speed", "clamp_applied:alpha", "clamp_applied:beta", "clamp_applied:msd_threshold", "clamp_applied:gv_weight", "clamp_applied:sampling_frequency", "clamp_applied:fperiod", "clone"],
     };
